@@ -133,6 +133,17 @@ impl Config {
             c.strip_lifetimes.extend(strs(&src["strip_lifetimes"]));
             c.keep_derives.extend(strs(&src["keep_derives"]));
         }
+        // an entry of the item overrides the unit-wide entry for the same path (later wins)
+        let mut seen: Vec<Vec<String>> = vec![];
+        let mut kept = vec![];
+        for (from, to) in c.typemap.drain(..).rev() {
+            if !seen.contains(&from) {
+                seen.push(from.clone());
+                kept.push((from, to));
+            }
+        }
+        kept.reverse();
+        c.typemap = kept;
         // longest prefix first
         c.typemap.sort_by(|a, b| b.0.len().cmp(&a.0.len()));
         if c.format.is_empty() {
@@ -399,6 +410,12 @@ impl<'a> MacroPass<'a> {
                     bump(self.counts, "R6.panic_forbidden");
                     Some(syn::parse_quote!(vx_forbidden_panic()))
                 }
+            }
+            "parse_quote" => {
+                // R6c: `syn::parse_quote!(TOKENS)` -> `vx_parse_quote(vx_s("TOKENS"))`: the token text (spaces removed) stays an argument
+                let text: String = mac.tokens.to_string().chars().filter(|c| !c.is_whitespace()).collect();
+                bump(self.counts, "R6c.parse_quote");
+                Some(syn::parse_quote!(vx_parse_quote(vx_s(#text))))
             }
             _ => {
                 if self.cfg.drop_macros.iter().any(|m| *m == name) {
